@@ -242,7 +242,7 @@ pub fn run(args: Args) -> ! {
         }
         rep.stats.merge(st);
     }
-    let run = run_tape("C07.values", &prop, 1500, args.tier.pick(60_000, 1_500_000), args.seed, workers());
+    let run = run_tape("C07.values", &prop, 1500, args.tier.pick(300_000, 3_000_000), args.seed, workers());
     finish_run(&mut rep, "values", run);
     for c in ["type.Scalars", "type.Opts", "type.Seqs", "type.Maps", "type.Dates", "type.Nested", "type.BadNoneInSeq", "type.BadCtx", "type.BadIntKey", "type.BadU64", "type.root E", "unsupported-rejected"] {
         rep.require_class(c);
